@@ -11,7 +11,7 @@ import (
 
 func init() {
 	register("C01", propMeta{
-		Explanation: "Exactly-once in-order delivery is provided by third-party KCP and smux and is NOT decided. Decided is the repository's glue that lets one KCP session outlive its carriers; each clause is a necessary condition (break it and some payload/fault schedule stalls, corrupts or ends the stream). O-1 carrier preamble agreement: in the dialContext closure of newSession every path to the successful return writes, in this order, turbotunnel.Token and the session's ClientID, each followed by an error exit; the ClientID is the value of one turbotunnel.NewClientID() call made by newSession outside the closure (one id per session, not per dial); the server reads len(Token) then len(ClientID) bytes before the first ReadData (sizes via types: 8/8). O-2 protocol constants agree between the two ends: kcp.NewConn2(_, nil, 0, 0, _) versus kcp.ServeConn(nil, 0, 0, _), smux Version equal on both ends; stream mode, window size and no-delay parameters equal on both ends. O-3 reliable ordered data channel: the DataChannelInit given to CreateDataChannel has Ordered pointing at a variable whose only store is true and sets neither MaxRetransmits nor MaxPacketLifeTime. O-4/O-5 (shared with C17): the redial adapter surfaces errors only after close and enqueues private copies. O-6 both relay directions exist in the three copy loops (two io.Copy calls with swapped arguments). O-7 liveness glue: the last-receive timestamp is written only on the receive path (the OnMessage callback and the staleness loop's initialisation) so that traffic the client itself sends cannot keep a dead proxy alive; the staleness loop closes the peer when time.Since(lastReceive) exceeds its timeout and is started on every successful connect; the broker round trip has a bounded response-header timeout, so a lost broker answer cannot park the collector (which holds the collect lock) for ever. O-8 every packet written with encapsulation.WriteData through a bufio.Writer is flushed on its success path before the next packet or the return (client adapter and server write loop). Added after the second seeding round: O-2 also compares the smux keep-alive timeout of both ends with each other and with the server's client-map retention; O-7 also requires that WebRTCPeer.Close marks the peer closed before it tears the transport down (Pop skips peers by Closed()); O-9 no goroutine started in a loop captures a variable that lives across iterations and is assigned in the loop (server accept loop and the other per-connection loops). Sites are searched in the anchored functions and the same-package helpers they call; a parameter of a single-call-site helper is identified with its argument. Added after the third seeding round: O-9b a timer or time.After that bounds a wait inside a loop is drawn or re-armed in every iteration; the closed mark precedes what cleanup does (closing the pipe, DataChannel, PeerConnection), whether or not a function named cleanup still exists; the rendezvous transport keeps a ResponseHeaderTimeout. Added after the fourth seeding round: O-10/C05 ClientID.String() covers the whole identifier (a redial re-attaches to its session through that string); O-11/C06 the proxy-side relay gate (a proxy that serves a client through a relay other than the one its rendezvous named splits one KCP conversation over two bridges). Added after the fifth seeding round: O-4/C17 also covers errors-only-after-close for the redial adapter (a full send queue reported as an error ends the client's KCP session during a proxy outage).",
+		Explanation: "Exactly-once in-order delivery is provided by third-party KCP and smux and is NOT decided. Decided is the repository's glue that lets one KCP session outlive its carriers; each clause is a necessary condition (break it and some payload/fault schedule stalls, corrupts or ends the stream). O-1 carrier preamble agreement: in the dialContext closure of newSession every path to the successful return writes, in this order, turbotunnel.Token and the session's ClientID, each followed by an error exit; the ClientID is the value of one turbotunnel.NewClientID() call made by newSession outside the closure (one id per session, not per dial); the server reads len(Token) then len(ClientID) bytes before the first ReadData (sizes via types: 8/8). O-2 protocol constants agree between the two ends: kcp.NewConn2(_, nil, 0, 0, _) versus kcp.ServeConn(nil, 0, 0, _), smux Version equal on both ends; stream mode, window size and no-delay parameters equal on both ends. O-3 reliable ordered data channel: the DataChannelInit given to CreateDataChannel has Ordered pointing at a variable whose only store is true and sets neither MaxRetransmits nor MaxPacketLifeTime. O-4/O-5 (shared with C17): the redial adapter surfaces errors only after close and enqueues private copies. O-6 both relay directions exist in the three copy loops (two io.Copy calls with swapped arguments). O-7 liveness glue: the last-receive timestamp is written only on the receive path (the OnMessage callback and the staleness loop's initialisation) so that traffic the client itself sends cannot keep a dead proxy alive; the staleness loop closes the peer when time.Since(lastReceive) exceeds its timeout and is started on every successful connect; the broker round trip has a bounded response-header timeout, so a lost broker answer cannot park the collector (which holds the collect lock) for ever. O-8 every packet written with encapsulation.WriteData through a bufio.Writer is flushed on its success path before the next packet or the return (client adapter and server write loop). Added after the second seeding round: O-2 also compares the smux keep-alive timeout of both ends with each other and with the server's client-map retention; O-7 also requires that WebRTCPeer.Close marks the peer closed before it tears the transport down (Pop skips peers by Closed()); O-9 no goroutine started in a loop captures a variable that lives across iterations and is assigned in the loop (server accept loop and the other per-connection loops). Sites are searched in the anchored functions and the same-package helpers they call; a parameter of a single-call-site helper is identified with its argument. Added after the third seeding round: O-9b a timer or time.After that bounds a wait inside a loop is drawn or re-armed in every iteration; the closed mark precedes what cleanup does (closing the pipe, DataChannel, PeerConnection), whether or not a function named cleanup still exists; the rendezvous transport keeps a ResponseHeaderTimeout. Added after the fourth seeding round: O-10/C05 ClientID.String() covers the whole identifier (a redial re-attaches to its session through that string); O-11/C06 the proxy-side relay gate (a proxy that serves a client through a relay other than the one its rendezvous named splits one KCP conversation over two bridges). Added after the fifth seeding round: O-4/C17 also covers errors-only-after-close for the redial adapter (a full send queue reported as an error ends the client's KCP session during a proxy outage). Added after the sixth seeding round and the mutation audit: O-4/C17 also covers close-once/publication order and O-11 (RedialPacketConn.ReadFrom reports the connection's own remoteAddr on every successful return: the KCP client discards packets from any other address); O-12/C18 every carrier records its address before it is served (a session without an address crashes the server's handler).",
 		NotDecided:  "delivery, ordering and duplication under any fault sequence; KCP/smux correctness; timing of staleness detection and re-collection; the proxy's relay behaviour under load. These remain the bulk of C01.",
 		Assumptions: []string{"kcp-go and smux implement reliable ordered delivery over a lossy packet conn", "pion data channels are reliable and ordered when Ordered is true and no retransmit limit is set"},
 	}, runC01)
@@ -180,6 +180,13 @@ func runC01(c *Ctx) {
 	c.checkCopyOnEnqueue(tt)
 	c.checkGoroutineExits(tt)
 	c.checkErrorsOnlyAfterClose("RedialPacketConn", "QueuePacketConn")
+	c.checkCloseOncePublication(tt)
+	c.checkRedialAddress()
+	c.prefix = ""
+	// a carrier whose address is not recorded leaves the session without a RemoteAddr: the server's handler
+	// dereferences it and the process - with every other client's stream - ends (C18's obligation)
+	c.prefix = "O-12/C18:"
+	c.checkSetOnEveryCarrier("O-2 address flow")
 	c.prefix = ""
 	// the session a redial re-attaches to is found by the ClientID's address string (C05's obligation)
 	c.prefix = "O-10/C05:"
